@@ -3,8 +3,10 @@
 Decided: the shape of the permuted ordering key, the for_upload filter, a
 classified sweep of every get_servers_for_psi call site, the upload filter of
 the mutable publisher, both upload_permitted implementations and the wiring of
-the grid-manager verifier into the server objects (DESIGN.md section 5, C32)."""
+the grid-manager verifier into the server objects, and that the verifier's verdict is
+computed from each certificate's own fields (DESIGN.md section 5, C32)."""
 from sa.h import *
+from sa.rules.C33 import _checker as _c33_checker
 
 EXPLANATION = (
     "Decided (structural, all paths): (1) StorageFarmBroker.get_servers_for_psi returns sorted(S, key=K) without "
@@ -19,16 +21,25 @@ EXPLANATION = (
     "for the loop variable of the walk over self.full_serverlist; (5) every upload_permitted implementation "
     "returns the configured verifier's verdict, True only when no verifier is configured, and "
     "StorageFarmBroker._make_storage_server hands the verifier built by create_grid_manager_verifier from the "
-    "configured grid-manager keys, the announcement's certificates and the server id to both server classes. "
+    "configured grid-manager keys, the announcement's certificates and the server id to both server classes; "
+    "(6) the predicate that verifier is (create_grid_manager_verifier's returned closure) reaches `return True` only "
+    "after, within the same iteration of its loop over the kept certificates, an ordering comparison whose larger "
+    "side derives from that iteration's certificate (the expiry; the other side does not) and an equality between a "
+    "value derived from that certificate and one derived from the public_key parameter - derivation is followed "
+    "through the predicate's own assignments per path, so a value captured from the factory (e.g. last bound in the "
+    "factory's signature-checking loop), computed before the loop, or left over from an earlier iteration does not "
+    "count. Which field is compared, strictness and the per-call clock are C33's clauses. "
     "Undecided: SHA-1 itself, Python's tuple ordering / sort stability, the truth of what servers announce as "
     "their permutation seed.")
 TECHNIQUE = ("static analysis: normal-form agreement of the sort key, CFG must-precede gates for the upload filter, "
-             "package-wide who-may-call sweep with a classification table")
+             "package-wide who-may-call sweep with a classification table, per-path derivation (taint) product "
+             "exploration of the verifier closure")
 
 SC = "storage_client"
 BROKER = SC + ":StorageFarmBroker"
 PSI = BROKER + ".get_servers_for_psi"
 PERMIT = "upload_permitted"
+GM_CREATE = "grid_manager:create_grid_manager_verifier"
 
 # hand classification of every use of get_servers_for_psi (confirmed by reading)
 SITES = {
@@ -114,6 +125,202 @@ def _ret_values(kf):
     if isinstance(kf.node, ast.Lambda):
         return [(None, kf.node.body)]
     return [(n, n.ast.value) for n in kf.cfg().find(is_return)]
+
+
+# ------------------------------------------- C32.6: per-certificate verdict
+_OPAQUE_CALLS = {"type", "len", "isinstance", "id", "bool", "callable"}     # f(x) says nothing about the value of x
+
+
+def _value_names(e):
+    """Names an expression's *value* derives from (sub-expressions under type()/len()/... are skipped: the class or
+    the length of a certificate field does not identify the certificate)."""
+    out = set()
+    if e is None:
+        return out
+
+    def walk(x):
+        if isinstance(x, ast.Call) and isinstance(x.func, ast.Name) and x.func.id in _OPAQUE_CALLS:
+            return
+        if isinstance(x, ast.Name):
+            out.add(x.id)
+        for c in ast.iter_child_nodes(x):
+            walk(c)
+    walk(e)
+    return out
+
+
+def _target_names(t):
+    """Plain names (re)bound by an assignment / loop target (`x[i] = ..` and `x.a = ..` bind nothing)."""
+    if isinstance(t, ast.Name):
+        return {t.id}
+    if isinstance(t, (ast.Tuple, ast.List)):
+        out = set()
+        for e in t.elts:
+            out |= _target_names(e)
+        return out
+    if isinstance(t, ast.Starred):
+        return _target_names(t.value)
+    return set()
+
+
+def _node_bindings(n):
+    """[(set of plain names bound, value expression or None)] for the bindings made when the CFG node `n` is left
+    normally (None: a value the rule does not follow)."""
+    a = n.ast
+    out = []
+    if a is None:
+        return out
+    if n.kind == "iter":
+        out.append((_target_names(a.target), a.iter))
+        return out
+    if n.kind == "with":
+        for it in a.items:
+            if it.optional_vars is not None:
+                out.append((_target_names(it.optional_vars), None))
+        return out
+    if n.kind == "except":
+        if a.name:
+            out.append(({a.name}, None))
+        return out
+    for e in node_exprs(n):
+        for x in own_nodes(e):
+            if isinstance(x, ast.NamedExpr) and isinstance(x.target, ast.Name):
+                out.append(({x.target.id}, x.value))
+    if isinstance(a, ast.Assign):
+        for t in a.targets:
+            out.append((_target_names(t), a.value))
+    elif isinstance(a, ast.AnnAssign) and isinstance(a.target, ast.Name):
+        out.append(({a.target.id}, a.value))
+    elif isinstance(a, ast.AugAssign) and isinstance(a.target, ast.Name):
+        out.append(({a.target.id}, None))        # old (possibly earlier-iteration) value mixed in
+    elif isinstance(a, ast.Delete):
+        for t in a.targets:
+            out.append((_target_names(t), None))
+    elif isinstance(a, (ast.FunctionDef, ast.AsyncFunctionDef, ast.ClassDef)):
+        out.append(({a.name}, None))
+    elif isinstance(a, (ast.Import, ast.ImportFrom)):
+        out.append(({(al.asname or al.name).split(".")[0] for al in a.names}, None))
+    return out
+
+
+def _relation(e, polarity):
+    """The binary relation that holds between two operands when the atomic condition `e` evaluates to `polarity`:
+    ('<' | '<=', small, large), ('==', a, b), or None."""
+    while isinstance(e, ast.UnaryOp) and isinstance(e.op, ast.Not):
+        e, polarity = e.operand, not polarity
+    if not (isinstance(e, ast.Compare) and len(e.ops) == 1):
+        return None
+    a, b, op = e.left, e.comparators[0], type(e.ops[0])
+    neg = {ast.Lt: ast.GtE, ast.GtE: ast.Lt, ast.Gt: ast.LtE, ast.LtE: ast.Gt, ast.Eq: ast.NotEq, ast.NotEq: ast.Eq}
+    if op not in neg:
+        return None
+    if not polarity:
+        op = neg[op]
+    if op is ast.Lt:
+        return ("<", a, b)
+    if op is ast.LtE:
+        return ("<=", a, b)
+    if op is ast.Gt:
+        return ("<", b, a)
+    if op is ast.GtE:
+        return ("<=", b, a)
+    if op is ast.Eq:
+        return ("==", a, b)
+    return None
+
+
+def _gates(e, pol, fresh, skey, conds):
+    """Which per-certificate facts hold when expression `e` evaluates to `pol`, given the names currently derived
+    from this iteration's certificate (`fresh`), from the expected server key (`skey`) and the boolean
+    temporaries whose truth already implies a fact (`conds`):
+      'exp'  X < Y or X <= Y with Y derived from the current certificate and X not (the clock side);
+      'key'  A == B with one side derived from the current certificate and the other from the server key."""
+    if isinstance(e, ast.UnaryOp) and isinstance(e.op, ast.Not):
+        return _gates(e.operand, not pol, fresh, skey, conds)
+    if isinstance(e, ast.NamedExpr):
+        return _gates(e.value, pol, fresh, skey, conds)
+    if isinstance(e, ast.BoolOp):
+        parts = [_gates(v, pol, fresh, skey, conds) for v in e.values]
+        if isinstance(e.op, ast.And) == bool(pol):
+            return set().union(*parts)
+        return set.intersection(*parts) if parts else set()
+    if isinstance(e, ast.Name):
+        return {k for (nm, k, p) in conds if nm == e.id and p == pol}
+    if isinstance(e, ast.Call) and isinstance(e.func, ast.Name) and e.func.id == "bool" and len(e.args) == 1 and not e.keywords:
+        return _gates(e.args[0], pol, fresh, skey, conds)
+    rel = _relation(e, pol)
+    if rel is None:
+        return set()
+    op, a, b = rel
+    na, nb = _value_names(a), _value_names(b)
+    if op in ("<", "<="):
+        if (nb & fresh) and na and not (na & fresh):
+            return {"exp"}
+        return set()
+    for (x, y) in ((na, nb), (nb, na)):
+        if (x & fresh) and not (x & skey) and (y & skey) and not (y & fresh):
+            return {"key"}
+    return set()
+
+
+def _loop_bound_names(fn):
+    """name -> the outermost loop statement of `fn` inside which the name is (re)bound (loop targets included):
+    after the loop such a name holds what the *last* iteration left."""
+    out = {}
+
+    def header_exprs(s):
+        if isinstance(s, (ast.FunctionDef, ast.AsyncFunctionDef, ast.ClassDef)):
+            return []
+        if not any(isinstance(getattr(s, f, None), list) and getattr(s, f) and isinstance(getattr(s, f)[0], ast.stmt)
+                   for f in ("body", "orelse", "finalbody")):
+            return [s]
+        hs = [getattr(s, "test", None), getattr(s, "iter", None), getattr(s, "subject", None)]
+        hs += [i.context_expr for i in getattr(s, "items", []) or []]
+        return [h for h in hs if h is not None]
+
+    def binds(s):
+        names = set()
+        if isinstance(s, ast.Assign):
+            for t in s.targets:
+                names |= _target_names(t)
+        elif isinstance(s, (ast.AugAssign, ast.AnnAssign)):
+            names |= _target_names(s.target)
+        elif isinstance(s, (ast.For, ast.AsyncFor)):
+            names |= _target_names(s.target)
+        elif isinstance(s, (ast.With, ast.AsyncWith)):
+            for i in s.items:
+                if i.optional_vars is not None:
+                    names |= _target_names(i.optional_vars)
+        elif isinstance(s, (ast.FunctionDef, ast.AsyncFunctionDef, ast.ClassDef)):
+            names.add(s.name)
+        for h in header_exprs(s):
+            for x in own_nodes(h):
+                if isinstance(x, ast.NamedExpr) and isinstance(x.target, ast.Name):
+                    names.add(x.target.id)
+        return names
+
+    def visit(stmts, loop):
+        for s in stmts:
+            inner = loop
+            if isinstance(s, (ast.For, ast.AsyncFor, ast.While)):
+                inner = loop or s
+            if inner is not None:
+                for nm in binds(s):
+                    out.setdefault(nm, inner)
+            if isinstance(s, (ast.FunctionDef, ast.AsyncFunctionDef, ast.ClassDef)):
+                continue
+            for fld in ("body", "orelse", "finalbody"):
+                sub = getattr(s, fld, None)
+                if isinstance(sub, list) and sub and isinstance(sub[0], ast.stmt):
+                    visit(sub, inner)
+            for h in getattr(s, "handlers", []) or []:
+                if inner is not None and h.name:
+                    out.setdefault(h.name, inner)
+                visit(h.body, inner)
+            for c in getattr(s, "cases", []) or []:
+                visit(c.body, inner)
+    visit(fn.node.body, None)
+    return out
 
 
 def run(ctx: Context):
@@ -536,3 +743,123 @@ def run(ctx: Context):
                     continue
                 a = actual(cs.call, ips, vparam)
                 r.require(a is not None, cs.fn, cs.loc, "%s constructs %s without a grid-manager verifier" % (short(cs.fn), cname))
+
+    # -- 6. the verdict is per certificate ---------------------------------
+    with ctx.rule("C32.6", "R3", "the verifier behind upload_permitted() judges each kept certificate by that "
+                  "certificate's own fields: `return True` only after, in the same loop iteration, an expiry comparison "
+                  "and a key comparison on values derived from the loop's certificate (not from a variable the factory "
+                  "left behind)", expected=2) as r:
+        fn = idx.func(GM_CREATE)
+        chk = _c33_checker(fn)
+        cfg = chk.cfg()
+        fnorm = FlowNorm(chk)
+        if "public_key" not in fn.params:
+            raise AnchorVanished("create_grid_manager_verifier has no public_key parameter")
+        chk_locals = set(all_defs(chk)) | set(chk.params)
+        # the loop(s) of the predicate over the list of kept certificates (a factory local, C33.2 decides what it holds)
+        loop_ids = {}
+        kept = set()
+        for x in cfg.nodes:
+            if x.kind == "iter":
+                it = _strip_enumerate(x.ast.iter)
+                if isinstance(it, ast.Name) and it.id in all_defs(fn) and it.id not in chk_locals:
+                    loop_ids[x.id] = x
+                    kept.add(it.id)
+                    r.site(chk, x.ast, "loop over the kept certificates")
+        if len(kept) != 1:
+            raise AnchorVanished("%s: expected loop(s) over one list built by the factory, found %s" % (short(chk), sorted(kept)))
+        skey0 = frozenset() if "public_key" in chk_locals else frozenset(["public_key"])
+
+        def transfer(n, lab, nxt, st):
+            fresh, skey, conds, k_ok, e_ok = st
+            if n.kind in ("entry", "exit", "raise"):
+                return st
+            if n.id in loop_ids:
+                tn = frozenset(_target_names(n.ast.target))
+                if lab == "iter":
+                    return (tn, skey - tn, frozenset(), False, False)
+                return (frozenset(), skey, frozenset(), False, False)
+            binds = _node_bindings(n)
+            if binds:
+                nf, nk, nc = set(fresh), set(skey), set(conds)
+                for (names, v) in binds:
+                    vn = _value_names(v) if (v is not None and lab != "exc") else set()
+                    add = set()
+                    if len(names) == 1 and v is not None and lab != "exc" and n.kind != "iter":
+                        (nm,) = tuple(names)
+                        for pol in (True, False):
+                            for k in _gates(v, pol, fresh, skey, conds):
+                                add.add((nm, k, pol))
+                    nc = {c for c in nc if c[0] not in names} | add
+                    if vn & fresh:
+                        nf |= names
+                    else:
+                        nf -= names
+                    if vn & skey:
+                        nk |= names
+                    else:
+                        nk -= names
+                fresh, skey, conds = frozenset(nf), frozenset(nk), frozenset(nc)
+            if n.kind == "test" and isinstance(lab, tuple):
+                g = _gates(n.ast, lab[0] == "T", fresh, skey, conds)
+                k_ok = k_ok or "key" in g
+                e_ok = e_ok or "exp" in g
+            return (fresh, skey, conds, k_ok, e_ok)
+
+        visited, parent = explore(cfg, (frozenset(), skey0, frozenset(), False, False), transfer)
+        r.count(len(visited))
+        lb = _loop_bound_names(fn)
+        fdefs = set(all_defs(fn)) | set(fn.params)
+
+        def explain(w, kind):
+            """Name what the deciding comparison on the witness path reads instead of this certificate's field."""
+            seg = []
+            for (node, lab) in w.path:
+                if node.id in loop_ids:
+                    seg = []
+                seg.append((node, lab))
+            out = []
+            for (node, lab) in seg:
+                if node.kind != "test" or not isinstance(lab, tuple):
+                    continue
+                e = node.ast
+                rel = _relation(fnorm.resolve(node, e) if isinstance(e, ast.Name) else e, lab[0] == "T")
+                if rel is None or (rel[0] == "==") != (kind == "key"):
+                    continue
+                deps = set()
+                for side in rel[1:]:
+                    deps |= {d for d in depends_on(chk, side) if "." not in d}
+                for nm in sorted(_value_names(rel[1]) | _value_names(rel[2]) | deps):
+                    if nm in chk_locals or nm not in fdefs or (kind == "key" and nm == "public_key"):
+                        continue
+                    if nm in lb:
+                        out.append("`%s` feeding `%s` is a variable of %s last bound inside its loop at %s: when the predicate "
+                                   "runs it holds what the final iteration left there, the same value for every "
+                                   "certificate" % (nm, src(chk, e), fn.name, fn.loc(lb[nm])))
+                    elif nm not in fn.params:
+                        out.append("`%s` feeding `%s` is computed once in %s, not from the certificate under test" % (
+                            nm, src(chk, e), fn.name))
+            return ("; " + "; ".join(out)) if out else ""
+
+        permits = 0
+        for n in cfg.find(is_return):
+            v = fnorm.resolve(n, n.ast.value) if n.ast.value is not None else None
+            if v is None or (isinstance(v, ast.Constant) and not v.value):
+                continue
+            if not isinstance(v, ast.Constant):
+                raise AnalysisError("%s returns %s: the rule follows constant True/False verdicts only" % (short(chk), src(chk, v)))
+            permits += 1
+            r.site(chk, n.ast, "permitting return")
+            for (kind, pos, what) in (("exp", 4, "an expiry comparison `now < X` with X derived from the certificate of "
+                                       "this loop iteration"),
+                                      ("key", 3, "a comparison of this iteration's certificate key with the server's "
+                                       "public_key")):
+                for (nid, st) in sorted(visited, key=lambda z: (z[0], z[1][3], z[1][4], sorted(z[1][0]), sorted(z[1][1]), sorted(z[1][2]))):
+                    if nid == n.id and not st[pos]:
+                        w = witness(cfg, parent, (nid, st))
+                        r.violation(chk, chk.loc(n.ast), "upload permission is granted without %s: a server showing "
+                                    "several certificates is judged by the wrong one%s (path: %s)" % (
+                                        what, explain(w, kind), w.brief()), w)
+                        break
+        if not permits:
+            raise AnchorVanished("%s never returns True" % short(chk))
